@@ -274,6 +274,11 @@ def start_hang_watchdog(pid, tier, t0):
             idle = time.time() - h["t"]
             if idle <= allow:
                 continue
+            # ... and the process really is busy: a call that loops for ever burns CPU; on a heavily loaded machine a healthy call may
+            # need much more wall time than usual, but then it has not been given the CPU either (steps that wait for a child
+            # process carry their own allowance)
+            if h.get("allow") is None and time.process_time() - h.get("cpu", 0.0) < 0.6 * allow:
+                continue
             payload = {"property": pid, "violations": [{
                 "kind": "the implementation does not return",
                 "what": h["what"], "seconds_without_return": round(idle), "allowance_s": allow,
